@@ -302,7 +302,18 @@ fn verif_serve_witness() {
         if line.trim().is_empty() {
             continue;
         }
-        out.push_str(&run_one(line));
+        // watchdog: a scenario in which `serve` or one poll of the body never returns is reported as HANG
+        let (tx, rx) = std::sync::mpsc::channel();
+        let l2 = line.to_string();
+        std::thread::spawn(move || { let _ = tx.send(run_one(&l2)); });
+        match rx.recv_timeout(std::time::Duration::from_secs(20)) {
+            Ok(s) => out.push_str(&s),
+            Err(_) => {
+                // observation with the panic field carrying the verdict (no response, no frames)
+                let msg: String = "HANG: the scenario did not finish within 20 s (endless loop in serve or in one poll of the body)".bytes().map(|b| format!("{:02x}", b)).collect();
+                out.push_str(&format!("{}|0||||{}", line.split('|').next().unwrap_or("?"), msg));
+            }
+        }
         out.push('\n');
     }
     std::fs::write(outp, out).unwrap();
